@@ -46,6 +46,22 @@ theorem load_valid_reaches_visitor (σ : Registry.Reg CT.CExpr) (cls : Registry.
   have ht' : parseAll AbnfGen.metaG f src 0 = .ok t src.length := ht
   exact ⟨t, ht', by simp [loadIn, ht']⟩
 
+/-- **strict `load_grammar` / the rulelist decorator**: if what the normalisation makes of the text is not a rulelist, the
+load ends in ParseError and the registry is unchanged - for every text.  (What the normalisation does: `Norm.strictNorm`;
+only LF is a line end, so e.g. VT, FF, NEL or U+2028 between two rules are NOT line ends: `Norm.strictNorm_keeps_others`.) -/
+theorem load_strict_invalid_defines_nothing (σ : Registry.Reg CT.CExpr) (cls : Registry.ClassId) (text : Src) (f : Nat)
+    (hf : fuelFor AbnfGen.metaGK AbnfGen.metaGD (Norm.strictNorm text).length AbnfGen.metaGK 0 ≤ f)
+    (hbad : ¬ M AbnfGen.metaG (Norm.strictNorm text) (.ref 0) 0 (Norm.strictNorm text).length) :
+    loadStrictIn AbnfGen.metaG f σ cls text = (σ, .parseError) :=
+  load_invalid_defines_nothing σ cls (Norm.strictNorm text) f hf hbad
+
+/-- two rules separated by a vertical tab / by U+2028 instead of a line end: rejected, nothing defined; separated by a bare
+LF: loaded -/
+example : (loadStrictIn AbnfGen.metaG 900 ⟨[], [], 0⟩ 1 [97, 61, 34, 120, 34, 11, 98, 61, 34, 121, 34]).2 = .parseError ∧
+    (loadStrictIn AbnfGen.metaG 900 ⟨[], [], 0⟩ 1 [97, 61, 34, 120, 34, 0x2028, 98, 61, 34, 121, 34]).2 = .parseError ∧
+    (loadStrictIn AbnfGen.metaG 900 ⟨[], [], 0⟩ 1 [97, 61, 34, 120, 34, 10, 98, 61, 34, 121, 34, 32, 10]).2 = .ok ∧
+    (loadStrictIn AbnfGen.metaG 900 ⟨[], [], 0⟩ 1 [32, 97, 61, 34, 120, 34, 10]).2 = .parseError := by decide +kernel
+
 private def isParseError : CT.CRes → Bool
   | .parseError => true
   | _ => false
